@@ -67,10 +67,10 @@ class ExperimentLexer(Lexer):
 
     # logical operators
     KW_EQ = r"=="
-    KW_GT = r">"
-    KW_LT = r"<"
     KW_GE = r">="
     KW_LE = r"<="
+    KW_GT = r">"
+    KW_LT = r"<"
     KW_NE = r"!="
     KW_IN = r"in"
     KW_NOT_IN = r"not\s+in"
